@@ -262,12 +262,13 @@ def check(prog: Program, tier: str) -> Result:
     _r19_14(prog, res)
     _r19_15(prog, res)
     _r19_16(prog, res)
+    _r19_17(prog, res)
     # a renamed binding is rewritten as ONE transaction (R19.3); that only keeps definition and uses together if the
     # scheduler applies a transaction wholly or not at all - decided by the C10 check, adopted here
     from . import c10 as _c10
     res.adopt(_c10.check(prog, tier), {"R10.1", "R10.3", "R10.6"}, "R19.3",
               "a rename is consistent only if its transaction is applied as a whole or not at all")
-    res.floors.update({"R19.1": 8, "R19.2": 4, "R19.3": 2, "R19.4": 1, "R19.5": 1, "R19.6": 1, "R19.7": 2, "R19.8": 6, "R19.9": 1, "R19.10": 1, "R19.11": 3, "R19.12": 1, "R19.13": 4, "R19.14": 1, "R19.15": 1, "R19.16": 1})
+    res.floors.update({"R19.1": 8, "R19.2": 4, "R19.3": 2, "R19.4": 1, "R19.5": 1, "R19.6": 1, "R19.7": 2, "R19.8": 6, "R19.9": 1, "R19.10": 1, "R19.11": 3, "R19.12": 1, "R19.13": 4, "R19.14": 1, "R19.15": 1, "R19.16": 1, "R19.17": 1})
     res.analysed.update({"named_node_constructions_reaching_output": n_ctor, "guarded_name_generators": sorted(f"{a}.{b}" for a, b in gens)})
     return res
 
@@ -1151,6 +1152,56 @@ def _r19_16(prog: Program, res: Result) -> None:
         res.undecided("R19.16", "pyrefact/fixes.py:0", "fixes", "constructions of a renaming transformer", "none found (merge_nested_comprehensions is expected)")
 
 
+def _r19_17(prog: Program, res: Result) -> None:
+    """A table keyed by (class, member) says which member of WHICH class gets a new name.  Inside the loop over the classes, a projection
+    of that table that throws the class component away (`{member: new for (_, member), new in table.items()}`) makes the entry of one
+    class apply to the members of every other class of that spelling: `self.helper` of class A is redirected to the extracted
+    `B.helper`.  Instance: every comprehension over the items of a dict whose keys are built as `(<loop variable>.name, ..)` in a loop
+    over definitions, when the comprehension stands in that loop; obligation: the class component is bound (not `_`) and compared with
+    the loop variable's name in a condition of the comprehension."""
+    n = 0
+    for fn in prog.funcs.values():
+        if not fn.is_fix:
+            continue
+        # tables filled as T[(X.name, ..)] = .. inside `for X in ..`
+        tables: Dict[str, ast.For] = {}
+        for lp in walk_own(fn.node):
+            if not (isinstance(lp, ast.For) and isinstance(lp.target, ast.Name)):
+                continue
+            for st in ast.walk(lp):
+                if isinstance(st, ast.Assign) and len(st.targets) == 1 and isinstance(st.targets[0], ast.Subscript) and isinstance(st.targets[0].value, ast.Name) \
+                        and isinstance(st.targets[0].slice, ast.Tuple) and st.targets[0].slice.elts \
+                        and norm(st.targets[0].slice.elts[0]) == f"{lp.target.id}.name":
+                    tables.setdefault(st.targets[0].value.id, lp)
+        for tname, lp in tables.items():
+            for comp in ast.walk(lp):
+                if not isinstance(comp, (ast.DictComp, ast.SetComp, ast.ListComp, ast.GeneratorExp)):
+                    continue
+                for g in comp.generators:
+                    it = g.iter
+                    over_items = isinstance(it, ast.Call) and isinstance(it.func, ast.Attribute) and it.func.attr == "items" and isinstance(it.func.value, ast.Name) and it.func.value.id == tname
+                    over_keys = (isinstance(it, ast.Name) and it.id == tname) or (isinstance(it, ast.Call) and isinstance(it.func, ast.Attribute) and it.func.attr == "keys"
+                                                                                 and isinstance(it.func.value, ast.Name) and it.func.value.id == tname)
+                    if not (over_items or over_keys):
+                        continue
+                    key = g.target.elts[0] if over_items and isinstance(g.target, ast.Tuple) and g.target.elts else g.target
+                    if not (isinstance(key, ast.Tuple) and key.elts):
+                        continue
+                    n += 1
+                    first = key.elts[0]
+                    want = f"{lp.target.id}.name"
+                    ok = isinstance(first, ast.Name) and first.id != "_" and any(
+                        isinstance(c, ast.Compare) and len(c.ops) == 1 and isinstance(c.ops[0], ast.Eq) and {norm(c.left), norm(c.comparators[0])} == {first.id, want}
+                        for cond in g.ifs for c in ast.walk(cond))
+                    res.decide(ok, "R19.17", fn.loc(comp), fn.fq, f"{short(comp, 80)} # a (class, member) table read inside the loop over the classes",
+                               f"restricted to the entries of `{want}`" if ok else
+                               f"the class component of the keys of `{tname}` is thrown away inside the loop over the classes: the new name of one class's member is applied to the "
+                               f"member of that spelling in every class handled later (`self.helper()` of class A redirected to the extracted static method of class B)")
+    if n == 0:
+        res.undecided("R19.17", "pyrefact/object_oriented.py:0", "object_oriented", "projections of a (class, member) table inside the loop over the classes",
+                      "none found (move_staticmethod_static_scope is expected)")
+
+
 def _word_in(word: str, text: str) -> bool:
     import re as _re
     return _re.search(rf"(?<![\w.]){_re.escape(word)}(?![\w])", text) is not None
@@ -1283,6 +1334,10 @@ def _r19_7(prog: Program, res: Result) -> None:
 from ..selftest import Variant  # noqa: E402
 
 VARIANTS: List[Variant] = [
+    Variant("moved-names-of-every-class-applied-to-each", "FIRE", "object_oriented",
+            "            for ((class_name, fname), name) in name_replacements.items()\n            if class_name == classdef.name\n", "            for ((_, fname), name) in name_replacements.items()\n", "R19.17"),
+    Variant("moved-names-compared-the-other-way-round", "SILENT", "object_oriented",
+            "            if class_name == classdef.name\n", "            if classdef.name == class_name\n"),
     Variant("comprehensions-merged-without-looking-for-the-new-name", "FIRE", "fixes",
             "                if target_name_inner != comprehension.target.id and any(\n                    core.walk(comprehension.iter, ast.Name(id=comprehension.target.id))\n                ):\n                    new_generators.append(comprehension)\n                    continue\n", "", "R19.16"),
     Variant("new-name-looked-for-in-the-element-only", "FIRE", "fixes",
